@@ -841,6 +841,10 @@ def wire_oracle(events, obs):
                     if rn[0] != cur[0]:
                         problems.append((k, "wire-relogin-rnfr-carried", f"RNTO {arg!r} as {cur[0]} renames {p!r}, the RNFR target of {rn[0]}"))
                     continue
+                if v == "RNTO" and name == "rename" and j == 0 and rn is not None:
+                    problems.append((k, "wire-rename-source", f"RNTO {arg!r} as {cur[0]} (cwd {cwd!r}) renames {p!r}; the pending RNFR named {rn[1]!r} "
+                                     "(= base + normalize(cwd at the RNFR, its argument))"))
+                    continue
                 problems.append((k, "wire-foreign-path", f"{verb} {arg!r} as {cur[0]} (base {cur[2]!r}, cwd {cwd!r}): backend call {name}({p!r}); the request addresses {T!r}"))
         renamed = [a for n, a in calls if n == "rename"]
         if v == "CWD":
